@@ -284,7 +284,13 @@ def _sib_defs(f):
             lhs = _sib_canon(f, n['ch'][0], ids)
             rhs = _sib_canon(f, n['ch'][1], ids)
             if n['op'] != '=':
-                rhs = '(' + lhs + n['op'][:-1] + rhs + ')'
+                o = n['op'][:-1]
+                if o in ('+', '*', '&', '|'):
+                    parts = [lhs] + (rhs[1:-1].split(o) if rhs.startswith('(') and rhs.endswith(')') and
+                                     rhs.count('(') == 1 and o in rhs else [rhs])
+                    rhs = '(' + o.join(sorted(parts)) + ')'
+                else:
+                    rhs = '(' + lhs + o + rhs + ')'
             out.setdefault(lhs, []).append((rhs, frozenset(ids), i, n['ch'][1], n['op']))
         elif n['k'] == 'DeclStmt':
             for d in n['decls']:
@@ -362,7 +368,12 @@ def rule_SIB1(ctx):
                     #  (ii) one statement on each side, same structure, exactly one identifier or literal differs
                     kind = None
                     if (len(only_f), len(only_g)) in ((1, 0), (0, 1)):
-                        kind = 'one sibling has a statement the other lacks'
+                        missing = (only_f or only_g)[0]
+                        lacking = dg if only_f else df
+                        # a refactoring that moved the expression into another variable is a rewrite, not a dropped statement
+                        moved = any(missing in x[0] for xs in lacking.values() for x in xs)
+                        if not moved:
+                            kind = 'one sibling has a statement the other lacks'
                     elif len(only_f) == 1 and len(only_g) == 1:
                         xf = [x for x in sf if x[0] == only_f[0]][0]
                         xg = [x for x in sg if x[0] == only_g[0]][0]
